@@ -1124,6 +1124,7 @@ func c10FreshSpace(c *fw.Ctx) {
 			{dns.ECDSAP256SHA256, 256, 128}, {dns.ECDSAP384SHA384, 384, 64}, {dns.ED25519, 256, 64}}
 	}
 	types := c10TypeIdx("MX", "SOA", "A", "NAPTR")
+	c10NameSpace(c)
 	c.Space("fresh", fmt.Sprintf("keys from DNSKEY.Generate, (algorithm, bits, repetitions) = %v; each signs RRsets of types {MX, SOA, A, NAPTR} (3 records, alternating case, reversed order, a repeated record): Sign → reference verifier; reference signer (using the generated private key) → Verify; one flipped signature bit must be rejected; the set of cases is fixed, the key material is not; non-trivial: every case", specs), true,
 		func(emit func(func(*fw.R))) {
 			for _, s := range specs {
